@@ -891,6 +891,8 @@ func runC10(tier, replay string) int {
 		c.BrokenF("%d anomalies seen in batches were not reproduced alone: the workers are unreliable", unconfirmed)
 	}
 	c.Assumef("glsl is run for at most %d entry points per module (the first ones and the last)", c10MaxGlslEntries)
+	c.Cov["max_cpu_calibration_factor"] = sup.MaxSlow
+	c.Assumef("CPU times are expressed in reference-machine milliseconds: every worker first runs a fixed allocation/formatting workload (c10Calib) and its CPU times and CPU limit are scaled by max(1, min(6, measured/%d ms)); on a slower or more heavily loaded machine the CPU envelope is therefore wider, never narrower (largest factor in this run: %.2f)", c10CalibRefMs, sup.MaxSlow)
 	c.Assumef("kill limits of the watchdog are 1.25x the cpu envelope and 1.5x+128 MiB the rss envelope; a killed call is recorded as timeout / oom")
 	c.Assumef("exploration, not proof: TLA+ contributes the input-space model and the call/outcome protocol; memory safety and complexity are observed")
 	return c.Finish()
